@@ -44,10 +44,13 @@ Definition slice_sum (c : list Q) (imin imax : nat) : Q := qsum (firstn (imax - 
 (* separation weighting: counts *= alpha / alpha.sum() *)
 Fixpoint zipmul (a b : list Q) : list Q :=
   match a, b with x :: xs, y :: ys => (x * y) :: zipmul xs ys | _, _ => [] end.
+(* alpha / alpha.sum(), with fractions reduced (same rationals, smaller representations) *)
+Definition norm_alpha (a : list Q) : list Q :=
+  let t := qsumr a in map (fun x => Qred (x / t)) a.
 Definition apply_alpha (alpha : option (list Q)) (c : list Q) : list Q :=
   match alpha with
   | None => c
-  | Some a => zipmul c (map (fun x => x / qsum a) a)
+  | Some a => zipmul c (norm_alpha a)
   end.
 
 (* AngularTree.count: grid = thresholds of the merged angular grid (ascending),
@@ -68,8 +71,9 @@ Fixpoint fine_weight (grid : list Q) (a : list Q) (d : Q) : Q :=
 Definition spec_count (grid : list Q) (alpha : option (list Q)) (lo hi : Q) (ps : pairs) : Q :=
   match alpha with
   | None => w_in lo hi ps
-  | Some a => qsum (map (fun p => if in_range lo hi (fst p)
-                                  then snd p * (fine_weight grid a (fst p) / qsum a) else 0) ps)
+  | Some a => let an := norm_alpha a in
+              qsumr (map (fun p => if in_range lo hi (fst p)
+                                   then Qred (snd p * fine_weight grid an (fst p)) else 0) ps)
   end.
 
 (* ---------- objects and catalogs (end to end) ---------- *)
